@@ -430,11 +430,20 @@ def payload_of(pcap):
     return out
 
 
+DELIMS = [0x2e, 0x00, 0x20, 0x0a, 0x0d, 0x2f, 0x3a, 0x09]
+
+
 def rbytes(r, n):
     k = r.random()
     if k < 0.15:
         return bytes([r.choice([0, 255])]) * n
-    return bytes(r.getrandbits(8) for _ in range(n))
+    b = bytearray(r.getrandbits(8) for _ in range(n))
+    # contents that end or begin with something a "tidy" builder might strip (dot, NUL, blank, line end, slash, colon)
+    if n and r.random() < 0.25:
+        b[-1] = r.choice(DELIMS)
+    if n and r.random() < 0.1:
+        b[0] = r.choice(DELIMS)
+    return bytes(b)
 
 
 def parts(r, total, count):
@@ -696,8 +705,90 @@ def check_cases(ctx, cases, tag="c15"):
     return w
 
 
+def dns_walk(msg, addrs, labels):
+    """independent reader of a DNS response built by dns::host: None when every length field declares exactly what
+    follows, the message is consumed exactly and each answer's data is the supplied address; else what is wrong"""
+    def name(o):
+        out = []
+        while True:
+            if o >= len(msg):
+                return None, "name runs past the end of the message"
+            l = msg[o]
+            if l >= 0xc0:
+                return out, o + 2
+            o += 1
+            if l == 0:
+                return out, o
+            out.append(msg[o:o + l]); o += l
+    if len(msg) < 12:
+        return "message shorter than its header"
+    qd, an, ns, ar = struct.unpack(">HHHH", msg[4:12])
+    if (qd, ns, ar) != (1, 0, 0) or an != len(addrs):
+        return "counts qd=%d an=%d ns=%d ar=%d for %d supplied addresses" % (qd, an, ns, ar, len(addrs))
+    q, o = name(12)
+    if q is None:
+        return o
+    if q != labels:
+        return "question name differs from the supplied one"
+    o += 4
+    for i, a in enumerate(addrs):
+        n, o = name(o)
+        if n is None:
+            return "answer %d: %s" % (i, o)
+        if o + 10 > len(msg):
+            return "answer %d: fixed part runs past the end of the message (%d bytes)" % (i, len(msg))
+        rdlen = struct.unpack(">H", msg[o + 8:o + 10])[0]
+        o += 10
+        if rdlen != 4 or msg[o:o + 4] != struct.pack(">I", a):
+            return "answer %d: data length %d, data %s, supplied address %08x" % (i, rdlen, msg[o:o + rdlen].hex(), a)
+        o += rdlen
+    if o != len(msg):
+        return "%d bytes follow the last announced record" % (len(msg) - o)
+    return None
+
+
+def host_cases(ctx):
+    """dns::host: resource-record data lengths and counts for 0..45 answers (responses up to and beyond 512 bytes)"""
+    r = ctx.rng
+    cases = []
+    counts = list(range(0, 46)) if ctx.thorough else [0, 1, 2, 7, 14, 15, 16, 17, 24, 30, 40, 45]
+    for n in counts:
+        labels = r.choice([[b"www", b"example", b"com"], [b"a"], [b"mirror", b"example", b"org"], [rbytes(r, 63).replace(b".", b"/")] * 2])
+        addrs = [r.getrandbits(32) for _ in range(n)]
+        c = Case()
+        c.name, c.files, c.text, c.meta = "host%d" % n, {}, None, []
+        qname = STR(b".".join(labels))
+        c.stmts = [Import(m) for m in ("ipv4", "dns")] + \
+            [Do(Call("dns::host", IP("10.0.0.1"), qname, _x=[gen.Lit("ip", a, "%d.%d.%d.%d" % tuple(struct.pack(">I", a))) for a in addrs]))]
+        c.gen = {"kind": "dns::host answers", "addrs": addrs, "labels": labels, "shape": "dns::host with %d addresses" % n}
+        cases.append(c)
+    diff.run_both(ctx, "c15h", cases)
+    for c in cases:
+        ctx.count(c.gen["kind"])
+        if not diff.triage(ctx, c):
+            continue
+        ctx.distinct(c.text)
+        ok, recs = common.pcap_records(c.impl.pcap)
+        msgs = []
+        for rec in recs:
+            f = rec[4]
+            if len(f) >= 42 and f[12:14] == b"\x08\x00" and f[23] == 17:
+                ulen = struct.unpack(">H", f[38:40])[0]
+                msgs.append(f[42:34 + ulen] if ulen >= 8 else b"")
+        if not ok or len(msgs) != 2:
+            ctx.fail("host-shape", "dns::host did not produce a query and a response", diff.replay_of(c))
+            continue
+        bad = dns_walk(msgs[1], c.gen["addrs"], c.gen["labels"])
+        if bad:
+            ctx.fail("host-rr", "dns::host response with %d addresses: %s" % (len(c.gen["addrs"]), bad), diff.replay_of(c))
+        elif c.impl.pcap != c.model["pcap"]:
+            ctx.fail("payload-differs", "dns::host output differs from the model's", diff.replay_of(c), disagreement=True)
+    return cases
+
+
 def run(ctx):
     set_workdir("c15")
+    host_cases(ctx)
     cases = helper_cases(ctx) + hello_cases(ctx) + nesting_cases(ctx, 4000 if ctx.thorough else 300)
     if ctx.thorough:                    # the boundary and option grids again with fresh contents
         for rep in range(3):
